@@ -119,7 +119,7 @@ func body(sp spec) {
 		if len(msgs) > 0 {
 			from = msgs[0].Metadata.Get("from")
 		}
-		po := hx.PubOutcome(vs.Choose(3, 0, "publisher outcome"))
+		po := hx.PubOutcome(vs.Choose(4, 0, "publisher outcome")) // ok, error, panic, error after accepting
 		pubOutcome[from] = po
 		return po
 	}
@@ -276,7 +276,11 @@ func init() {
 			add(reg.Quick, 5, spec{WithPub: withPub, MW: mw, N: 1, C: 1}, 2)
 		}
 		add(reg.Quick, 20, spec{WithPub: withPub, MW: 1, N: 2, C: 0}, 1)
-		add(reg.Quick, 30, spec{WithPub: withPub, MW: 0, N: 2, InFlight: true, Subset: true, C: 1}, 2)
+		cq := 1
+		if withPub {
+			cq = 0 // 5 behaviours x 4 publisher outcomes per message: c = 1 does not fit the quick budget
+		}
+		add(reg.Quick, 30, spec{WithPub: withPub, MW: 0, N: 2, InFlight: true, Subset: true, C: cq}, cq+1)
 		add(reg.Thorough, 60, spec{WithPub: withPub, MW: 0, N: 3, InFlight: true, Subset: true, C: 1}, 1)
 	}
 }
